@@ -49,6 +49,8 @@ enum {
   C_PAGES_LE,      /* a = mark index: the owner's heap must not hold more pages now than at that mark */
   C_WAIT_FREE_DONE,/* like C_WAIT_FREED, but waits until the consumer's mi_free calls have returned */
   C_WAIT_FREED,    /* a = first slot, b = count: wait (yielding) until these slots have been released by their consumer */
+  C_FILL_PAGE,     /* a = size (small class), b = first slot, c = slots to register, d = bulk index: allocate until the page of the first block has
+                      handed out its last block; the first c blocks go into slots, the rest are only kept (released at tear-down) */
 };
 typedef struct cop_s { int code; long a, b, c, d; } cop_t;
 #define MAXOPS 24
@@ -66,6 +68,7 @@ typedef struct cprog_s {
 #define NSLOTS 96
 typedef struct slot_s { uint8_t* p; size_t req, usable; uint64_t seed; int live; int owner; int arena; mi_memid_t memid; int in_transit; int free_returned; size_t plen; } slot_t;
 static slot_t  g_slots[NSLOTS];
+static void*   g_bulk[4][4200]; static int g_nbulk[4];   /* blocks of C_FILL_PAGE that are not in the model */
 /* the hand-over flags are accessed with (uninstrumented) atomic builtins: no effect under the token scheduler, and properly
    synchronised hand-overs in the free-running race pass */
 #define LIVE(i)            __atomic_load_n(&g_slots[i].live, __ATOMIC_ACQUIRE)
@@ -179,6 +182,19 @@ static int exec_ops(const cop_t* ops, int tid, int explored) {
       case C_DUMP: { mi_heap_t* h = mi_heap_get_default(); fprintf(stderr, "[t%d] pages=%zu", tid, h->page_count); for (int b = 0; b <= MI_BIN_FULL; b++) for (mi_page_t* pg = h->pages[b].first; pg; pg = pg->next) fprintf(stderr, " [bin%d bs=%zu used=%d fl=%d]", b, mi_page_block_size(pg), pg->used, (int)mi_page_thread_free_flag(pg)); fprintf(stderr, "\n"); break; }
       case C_PAGES_LE: { long now = (long)mi_heap_get_backing()->page_count; VF_INC(checks); if (now > g_pages_mark[o->a]) { SVIOL("freed-blocks-not-reused", "thread %d: %ld blocks were freed by another thread and the same number allocated again, but the heap grew from %ld to %ld pages: the remotely freed blocks were not reusable by the owner", tid, o->b, g_pages_mark[o->a], now); return -1; } break; }
       case C_WAIT_FREED: case C_WAIT_FREE_DONE: { long spins = 0; for (;;) { int pending = 0; for (long i = 0; i < o->b; i++) if (LIVE(o->a + i) || g_slots[o->a + i].p == NULL || (o->code == C_WAIT_FREE_DONE && !FREE_RET(o->a + i))) pending = 1; if (!pending) break; vf_yield(); if (++spins > SPIN_MAX) { SVIOL("livelock", "thread %d waits forever for slots %ld..", tid, o->a); return -1; } } break; }
+      case C_FILL_PAGE: {
+        const mi_page_t* pg = NULL; int k = (int)o->d;
+        for (int i = 0; i < 4200; i++) {
+          void* p = mi_malloc((size_t)o->a);
+          if (p == NULL) { SVIOL("null-result", "thread %d: mi_malloc(%ld) returned NULL", tid, o->a); return -1; }
+          if (pg == NULL) pg = _mi_ptr_page(p);
+          else if (_mi_ptr_page(p) != pg) { SVIOL("harness-geometry", "thread %d: fill_page left its page before the page was exhausted", tid); return -1; }
+          if (i < o->c) { if (model_add((int)(o->b + i), p, (size_t)o->a, tid, "mi_malloc")) return -1; }
+          else { memset(p, 0x5A, (size_t)o->a); g_bulk[k][g_nbulk[k]++] = p; }
+          if (pg->free == NULL && pg->local_free == NULL && pg->used == pg->reserved) break;   /* its last block went out */
+        }
+        break;
+      }
       case C_TICK: vf_os.clock_ms += o->a; break;
       case C_SUBPROC: { mi_subproc_id_t sp = mi_subproc_new(); mi_subproc_add_current_thread(sp); break; }
       case C_SUBPROC_JOIN: { if (g_sp[o->a] == NULL) g_sp[o->a] = mi_subproc_new(); mi_subproc_add_current_thread(g_sp[o->a]); break; }   /* several threads share sub-process number a */
@@ -240,6 +256,7 @@ static void t_teardown(int tid) {
       g_failed = 1; return;
     }
   }
+  if (tid == 0) for (int k = 0; k < 4; k++) { for (int i = 0; i < g_nbulk[k]; i++) mi_free(g_bulk[k][i]); g_nbulk[k] = 0; }
   for (int i = 0; i < NSLOTS; i++) if (LIVE(i) && (g_slots[i].owner == tid || tid == 0)) {
     slot_t s = g_slots[i];
     if (model_remove(i, tid)) { g_failed = 1; return; }
@@ -341,6 +358,15 @@ static const cprog_t progs[] = {
   { .name = "H6", .nthreads = 2, .quiescence = 1,
     .setup = { { { C_MALLOC, 64, 0 } }, { { C_INIT } } },
     .run   = { { { C_WAIT_FREE_DONE, 0, 1 }, { C_GENERIC99 }, { C_MALLOC, S8, 1 }, { C_MALLOC, 64, 2 }, { C_COLLECT, 1 }, { C_MALLOC, 64, 3 }, { C_MALLOC, 64, 4 } }, { { C_FREE_WAIT, 0 } } } },
+  /* H7: blocks of fewer than 8 bytes between 8-byte neighbours that stay live: a hardened / debug build has to make room for its
+     free-list link inside such a block when another thread frees it (it shrinks the block's padding), while the owner allocates and
+     frees around it; H7f: the page is filled to its last block and sits in the full queue, so the frees go through the owner's delayed list */
+  { .name = "H7", .nthreads = 2, .quiescence = 1,
+    .setup = { { { C_MALLOC, 3, 0 }, { C_MALLOC, 8, 1 }, { C_MALLOC, 5, 2 }, { C_MALLOC, 8, 3 }, { C_MALLOC, 1, 4 }, { C_MALLOC, 8, 5 } }, { { C_INIT } } },
+    .run   = { { { C_MALLOC, 7, 6 }, { C_FREE, 1 }, { C_MALLOC, 2, 7 }, { C_COLLECT, 0 } }, { { C_FREE, 0 }, { C_FREE, 2 }, { C_FREE, 4 }, { C_MALLOC, 4, 8 } } } },
+  { .name = "H7f", .nthreads = 2, .quiescence = 1,
+    .setup = { { { C_MALLOC, 3, 0 }, { C_MALLOC, 8, 1 }, { C_MALLOC, 5, 2 }, { C_MALLOC, 8, 3 }, { C_FILL_PAGE, 6, 10, 2, 0 }, { C_MALLOC, 8, 5 } }, { { C_INIT } } },
+    .run   = { { { C_MALLOC, 7, 6 }, { C_FREE, 1 }, { C_GENERIC99 }, { C_MALLOC, 2, 7 }, { C_COLLECT, 0 } }, { { C_FREE, 0 }, { C_FREE, 2 }, { C_FREE, 10 }, { C_MALLOC, 4, 8 } } } },
   /* H5: the last block of a full page is freed remotely while the owner frees another block of it locally and retires it */
   { .name = "H5", .nthreads = 2, .quiescence = 1,
     .setup = { { { C_FILL, S8, 0, 9 } }, { { C_INIT } } },
@@ -391,6 +417,13 @@ static const cprog_t progs[] = {
     .setup = { { { C_INIT } }, { { C_INIT } } },
     .run   = { { { C_MALLOC_AL_AT, 4000, 0, 4096 }, { C_FILL, S8, 1, 7 }, { C_FILL, S8, 10, 8 }, { C_PAGES_MARK, 0 }, { C_WAIT_FREE_DONE, 1, 3 }, { C_GENERIC99 }, { C_FILL, S8, 20, 3 }, { C_PAGES_LE, 0, 3 } },
                { { C_WAIT_LIVE, 17 }, { C_FREE_RANGE_WAIT, 1, 3 } } } },
+  /* R4: a small size class (1024 bytes: served by the fast path through the direct-page table, so a page that hands out its last block
+     stays at the head of its queue unseen). Page A is in the full queue, page B (head) is exhausted; another thread frees three blocks of
+     A; the owner's next allocation brings A back behind B and has to find it there instead of taking a fresh page */
+  { .name = "R4", .nthreads = 2, .quiescence = 0,
+    .setup = { { { C_INIT } }, { { C_INIT } } },
+    .run   = { { { C_FILL_PAGE, 1024, 0, 4, 0 }, { C_FILL_PAGE, 1024, 10, 1, 1 }, { C_PAGES_MARK, 0 }, { C_SIGNAL, 0 }, { C_WAIT_FREE_DONE, 1, 3 }, { C_GENERIC99 }, { C_FILL, 1024, 20, 3 }, { C_PAGES_LE, 0, 3 } },
+               { { C_WAIT_FLAG, 0 }, { C_FREE_RANGE_WAIT, 1, 3 } } } },
   /* E1: thread exit racing a remote free of one of its blocks and an allocation that reclaims */
   { .name = "E1", .leakcheck = 1, .nthreads = 3, .quiescence = 0,
     .setup = { { { C_INIT } }, { { C_MALLOC, S8, 0 }, { C_MALLOC, S8, 1 } }, { { C_INIT } } },
